@@ -589,7 +589,7 @@ def oracle_models(ctx, d):
     for _ in range(ctx.pick(30, 300)):
         L = rng.randint(1, 5)
         models = gen_models(rng, rng.randint(1, 4), L, near_one=False)
-        cdt = rng.choice(ALL_DTYPES)
+        cdt = rng.choice(list(CORE_DTYPES) * 2 + ALL_DTYPES)  # mostly the element types of the quantifier
         if cdt in ("f32", "f16"):
             models = f32_safe(rng, models[: 2 if cdt == "f32" else 1])  # exact in 24 / 11 mantissa bits
         c = mk_case(models, None, L, cdt)
